@@ -18,15 +18,18 @@ from mc.lib import hydraulics, simdata
 ID = 'C17'
 LEVEL = 'exploration'
 RULE = (
-    'Function level: every combination of 8 specific-yield sets (6 spline '
-    'knot sets, 2 PEATCLSM sets) x 7 level grids (inside the knot range, '
+    'Function level: every combination of 12 specific-yield sets (10 spline '
+    'knot sets, one of them refused as descending, 2 PEATCLSM sets) x 7 '
+    'level grids (inside the knot range, '
     'straddling either end, entirely below, entirely above, wide, single '
     'cell) x {grid, grid with every cell halved, grid with every cell cut in '
-    'three} x 3 requested means through the real compute_rise_curve.  '
+    'three} x 3 requested means, and every set x every sub-grid (>= 2 '
+    'levels) of a 10-level (thorough: 13-level) menu reaching below, into '
+    'and above every knot range, through the real compute_rise_curve.  '
     'Oracle: W[j] - W[i] = Gauss-Legendre integral of the callable itself '
     'for all i < j; equal values at shared levels after refinement; '
     'non-decreasing when Sy >= 0; mean(W) = requested.  Command level: 3 '
-    'datasets with an assembled rise curve x 8 parameter files x '
+    'datasets with an assembled rise curve x 12 parameter files x '
     '{table, --observations} through main([simulate, rise, ...]); oracle: '
     'rows = (levels of average_rising_depth in mm ascending, its measured '
     'values, the reference curve centred on their mean); the vector form '
@@ -49,6 +52,14 @@ GRIDS = {
 }
 MEANS = [0.0, 37.5, -1234.5]
 REFINE = [1, 2, 3]
+# every sub-grid (>= 2 levels) of a level menu that reaches below, into and
+# above every knot range, some levels being knots of some sets
+MENU = {
+    'quick': [-400.0, -55.0, 2.0, 8.5, 18.0, 20.75, 24.0, 45.0, 95.0,
+              1200.0],
+    'thorough': [-400.0, -55.0, 0.0, 2.0, 8.5, 12.0, 18.0, 20.75, 24.0,
+                 45.0, 60.0, 95.0, 1200.0],
+}
 
 
 def decoy():
@@ -57,9 +68,12 @@ def decoy():
 
 
 def BOUND(tier):
-    return ('8 Sy sets x 7 grids x 3 refinements x 3 means at function '
-            'level; 3 datasets x 8 parameter files x 2 output forms at '
-            'command level')
+    return ('%d Sy sets x 7 grids x 3 refinements x 3 means and x every '
+            'sub-grid of a %d-level menu (%d grids) at function level; %d '
+            'datasets x %d parameter files x 2 output forms at command level'
+            % (len(SY_SETS), len(MENU[tier]),
+               2 ** len(MENU[tier]) - len(MENU[tier]) - 1,
+               len(simdata.WORDS), len(SY_SETS)))
 
 
 def spaces(tier):
@@ -76,8 +90,19 @@ def spaces(tier):
         which, sy, obs = cli[i]
         return {'kind': 'cli', 'dataset': which, 'sy': sy,
                 'observations': obs}
+    menu = MENU[tier]
+    masks = [m for m in range(1 << len(menu)) if bin(m).count('1') >= 2]
+
+    def decode_sub(i):
+        sy = SY_SETS[i % len(SY_SETS)]
+        m = masks[i // len(SY_SETS)]
+        return {'kind': 'fn', 'sy': sy, 'refine': 1, 'mean': 37.5,
+                'grid': 'sub-%x' % m,
+                'levels': [z for k, z in enumerate(menu) if m >> k & 1]}
     return [Space('compute_rise_curve/Sy sets x grids x refinement x mean',
                   len(fn), decode),
+            Space('compute_rise_curve/Sy sets x every sub-grid of the menu',
+                  len(masks) * len(SY_SETS), decode_sub, decoy_every=1024),
             Space('main(simulate rise)/datasets x parameter files x form',
                   len(cli), decode_cli)]
 
@@ -115,7 +140,7 @@ def reference_curve(sy, breaks, grid, mean):
 
 def run_fn(case):
     sy, breaks, _ = make_sy(case['sy'])
-    base = GRIDS[case['grid']]
+    base = case.get('levels') or GRIDS[case['grid']]
     grid = refine(base, case['refine'])
     viol = []
     try:
@@ -155,7 +180,7 @@ def run_fn(case):
                     % (base[j], W[j * r] - W[0], Wb[j] - Wb[0])))
                 break
     return Result(viol=viol, nontrivial=len(grid) >= 3,
-                  outcome='%s/%s' % (case['sy'], case['grid']),
+                  outcome='%s/%s' % (case['sy'], case['grid'][:4]),
                   obs={'levels': len(grid), 'range': W[-1] - W[0]})
 
 
